@@ -225,7 +225,7 @@ func checkC15(c *Ctx, r *Report) {
 	cfgOK := c.checkConfigSemantics(r, c.roles(r), "C15.config-values")
 	camelOK := c.checkCamelSemantics(r, "C15.key-values")
 	if cfgOK {
-		r.Decide([]string{"C15.attr-lookup:", "C15.attributes:", "C15.subst:", "C15.int-width:", "C15.keys:", "C15.optional-key:", "C15.registry:", "C15.assert:", "C15.exhaustive:", "C15.chan-size:"}, nil,
+		r.Decide([]string{"C15.attr-lookup:", "C15.attributes:", "C15.subst:", "C15.int-width:", "C15.keys:", "C15.optional-key:", "C15.registry:", "C15.assert:", "C15.exhaustive:", "C15.chan-size:", "C15.anchor:config-sized channels"}, nil,
 			"configurations evaluated end to end: every registered and synthetic plugin type created from generated configurations and compared with the statement's reference resolution; Refresh evaluated for every logger × appender type and over ill-formed configurations")
 	}
 	if camelOK {
